@@ -1195,4 +1195,66 @@ Proof.
   apply suggest_roundtrip; [exact Hd|]. rewrite Hf. exact detect_format_ok.
 Qed.
 
+
+(* ================================================================== part 4: file kind ==== *)
+(* the score reaches 3 exactly when the date indicator (2 points) fires together with one of the others *)
+Lemma fixed_width_decision all_lines :
+  is_fixed_width all_lines =
+  (Nat.leb 3 (count_if date2_prefix (firstn 20 all_lines))
+   && (uniform_long (firstn 20 all_lines) || Nat.leb 3 (count_if amt_at_end (firstn 20 all_lines))))%bool.
+Proof.
+  unfold is_fixed_width, fw_score.
+  destruct (uniform_long (firstn 20 all_lines)), (Nat.leb 3 (count_if date2_prefix (firstn 20 all_lines))),
+    (Nat.leb 3 (count_if amt_at_end (firstn 20 all_lines))); reflexivity.
+Qed.
+
+Lemma few_dates_not_fixed all_lines :
+  count_if date2_prefix (firstn 20 all_lines) < 3 -> is_fixed_width all_lines = false.
+Proof.
+  intros H. rewrite fixed_width_decision.
+  destruct (Nat.leb_spec 3 (count_if date2_prefix (firstn 20 all_lines))); [lia|reflexivity].
+Qed.
+
+(* a line that starts like the date pattern has two consecutive blanks *)
+Fixpoint has_two_blanks (l : string) : bool :=
+  match l with
+  | String a r => (match r with String b _ => (is_ws a && is_ws b)%bool | EmptyString => false end || has_two_blanks r)%bool
+  | EmptyString => false
+  end.
+Lemma date2_has_two_blanks l : date2_prefix l = true -> has_two_blanks l = true.
+Proof.
+  do 12 (destruct l as [|? l]; [discriminate|]).
+  unfold date2_prefix. intros H. repeat (apply andb_true_iff in H as [H ?]).
+  cbn [has_two_blanks]. do 10 (apply orb_true_iff; right).
+  apply orb_true_iff. left. now apply andb_true_iff.
+Qed.
+Lemma count_if_zero p (l : list string) : (forall x, In x l -> p x = false) -> count_if p l = 0.
+Proof.
+  unfold count_if. induction l as [|x l IH]; intros H; [reflexivity|]. simpl.
+  rewrite (H x (or_introl eq_refl)). apply IH. intros y Hy. apply H. now right.
+Qed.
+Lemma in_firstn {A} (x : A) : forall n l, In x (firstn n l) -> In x l.
+Proof.
+  induction n as [|n IH]; intros [|y l] H; simpl in H; try contradiction.
+  destruct H as [->|H]; [now left|right; now apply IH].
+Qed.
+Lemma no_two_blanks_not_fixed all_lines :
+  (forall l, In l all_lines -> has_two_blanks l = false) -> is_fixed_width all_lines = false.
+Proof.
+  intros H. apply few_dates_not_fixed. rewrite count_if_zero; [lia|].
+  intros x Hx. apply in_firstn in Hx. specialize (H x Hx).
+  destruct (date2_prefix x) eqn:E; [|reflexivity]. apply date2_has_two_blanks in E. congruence.
+Qed.
+
+Lemma inspect_end_to_end all_lines headers d :
+  is_fixed_width all_lines = false -> auto_detect headers = Some d ->
+  inspect_report all_lines headers = RDetected d (suggest d) /\
+  exists sp, parse_format fparse (suggest d) None = Ok sp /\
+    f_date sp = a_date d /\ f_date_format sp = a_date_format d /\ f_desc sp = Some (a_desc d) /\
+    f_amount sp = a_amount d /\ f_loc sp = a_loc d /\ f_neg sp = false /\ f_abs sp = false /\
+    f_custom sp = [] /\ f_extra sp = [].
+Proof.
+  intros Hk Hd. split; [unfold inspect_report; now rewrite Hk, Hd|]. now apply (inspect_roundtrip headers).
+Qed.
+
 End WithFormatter.
